@@ -388,11 +388,14 @@ private:
   }
 
   epoch_t update_global_epoch(epoch_t curr_epoch, epoch_t new_epoch) {
-    if (global_epoch.load(std::memory_order_relaxed) == curr_epoch) {
-      // (6) - due to the load operations in scan, this acquire-fence synchronizes-with the release-store (4)
-      //       and the seq-cst fence (3)
-      XENIUM_THREAD_FENCE(std::memory_order_acquire);
+    // (6) - due to the load operations in scan, this acquire-fence synchronizes-with the release-store (4)
+    //       and the seq-cst fence (3)
+    // The caller switches to new_epoch and reclaims the nodes of its previous incarnation in any case,
+    // i.e., also when some other thread has already updated the global epoch, so the fence is required
+    // on that path as well.
+    XENIUM_THREAD_FENCE(std::memory_order_acquire);
 
+    if (global_epoch.load(std::memory_order_relaxed) == curr_epoch) {
       // The orphans have to be adopted _before_ the global epoch gets updated. As long as the global
       // epoch is still curr_epoch, this list can only contain nodes from the previous incarnation of
       // new_epoch. Once the global epoch has been updated, other threads may concurrently abandon
